@@ -254,4 +254,379 @@ theorem ws_last {src : List Ch} : ∀ (toks : List Token) (start : Nat), WellSpa
       · subst e'; exact ⟨h1, h4⟩
       · exact hi t' e'
 
+
+/-! ### block comments are trivia
+
+  `Closes k cs` is the block-comment loop of `skip` written as a relation: read from inside a block comment
+  with `k` enclosing comments still open besides the current one, `cs` is exactly the text up to and including
+  the `*/` that closes the outermost.  Its four rules are the four arms of the loop (a `/*` opens, a `*/`
+  closes — both recognised by look-ahead and consumed as a pair — every other character is skipped alone).
+  `WellNested c`: `c` is `/*` followed by such a text (the `/` must not be whitespace in the Unicode table the
+  text comes with: `skip` asks `is_whitespace` first).  `closesB` decides it; `closes_star_run`,
+  `closes_slash_run`, `closes_plain`, `closes_append`, `closes_wellNested` are the grammar view: star runs of
+  any length before a `*`, slash runs of any length before a `/`, any other characters, comments inside
+  comments to any depth. -/
+
+/-- well-nestedness as the model's scanner recognises it (see above) -/
+inductive Closes : Nat → List Ch → Prop
+  | close (c d : Ch) : c.cp = 42 → d.cp = 47 → Closes 0 [c, d]
+  | closeInner (k : Nat) (c d : Ch) (r : List Ch) : c.cp = 42 → d.cp = 47 → Closes k r → Closes (k + 1) (c :: d :: r)
+  | openInner (k : Nat) (c d : Ch) (r : List Ch) : c.cp = 47 → d.cp = 42 → Closes (k + 1) r → Closes k (c :: d :: r)
+  | other (k : Nat) (c d : Ch) (r : List Ch) : ¬(c.cp = 47 ∧ d.cp = 42) → ¬(c.cp = 42 ∧ d.cp = 47) →
+      Closes k (d :: r) → Closes k (c :: d :: r)
+
+/-- a properly terminated block comment: `/*`, then a text that the loop reads to its end exactly -/
+def WellNested : List Ch → Prop
+  | o :: s :: body => o.cp = 47 ∧ o.ws = false ∧ s.cp = 42 ∧ Closes 0 body
+  | _ => False
+
+/-- one step of the block-comment loop, for every depth (the equation lemmas split on the depth) -/
+theorem skip_block_cons2 (k p : Nat) (c d : Ch) (r : List Ch) :
+    skip (.block k) p (c :: d :: r) =
+      if c.cp = 47 ∧ d.cp = 42 then skip (.block (k + 1)) (p + c.len + d.len) r
+      else if c.cp = 42 ∧ d.cp = 47 then
+        (match k with
+         | 0 => skip .normal (p + c.len + d.len) r
+         | k' + 1 => skip (.block k') (p + c.len + d.len) r)
+      else skip (.block k) (p + c.len) (d :: r) := by
+  cases k <;> rw [skip]
+
+/-- the loop, started inside a comment on a text that `Closes`, resumes in normal mode right after it -/
+theorem skip_block_closes {k : Nat} {cs : List Ch} (h : Closes k cs) :
+    ∀ (p : Nat) (v : List Ch), skip (.block k) p (cs ++ v) = skip .normal (p + bytes cs) v := by
+  induction h with
+  | close c d hc hd =>
+    intro p v
+    have h1 : ¬(c.cp = 47 ∧ d.cp = 42) := by omega
+    rw [show [c, d] ++ v = c :: d :: v from rfl, skip_block_cons2, if_neg h1, if_pos ⟨hc, hd⟩]
+    simp only [bytes]
+    congr 1; omega
+  | closeInner k c d r hc hd _ ih =>
+    intro p v
+    have h1 : ¬(c.cp = 47 ∧ d.cp = 42) := by omega
+    rw [show (c :: d :: r) ++ v = c :: d :: (r ++ v) from rfl, skip_block_cons2, if_neg h1, if_pos ⟨hc, hd⟩]
+    simp only [ih, bytes]
+    congr 1; omega
+  | openInner k c d r hc hd _ ih =>
+    intro p v
+    rw [show (c :: d :: r) ++ v = c :: d :: (r ++ v) from rfl, skip_block_cons2, if_pos ⟨hc, hd⟩, ih]
+    simp only [bytes]
+    congr 1; omega
+  | other k c d r h1 h2 _ ih =>
+    intro p v
+    rw [show (c :: d :: r) ++ v = c :: d :: (r ++ v) from rfl, skip_block_cons2, if_neg h1, if_neg h2]
+    rw [show d :: (r ++ v) = (d :: r) ++ v from rfl, ih]
+    simp only [bytes]
+    congr 1; omega
+
+
+theorem closes_ne_nil {k : Nat} {cs : List Ch} (h : Closes k cs) : ∃ d r, cs = d :: r := by
+  cases h <;> exact ⟨_, _, rfl⟩
+
+/-- THE CORE: the skipping loop that meets the `/*` of a well-nested comment `c` resumes, in normal mode,
+    exactly at the end of `c` — whatever follows -/
+theorem skip_wellNested {c : List Ch} (h : WellNested c) (p : Nat) (v : List Ch) :
+    skip .normal p (c ++ v) = skip .normal (p + bytes c) v := by
+  match c, h with
+  | o :: s :: body, ⟨ho, hw, hs, hb⟩ =>
+    obtain ⟨d, r, e⟩ := closes_ne_nil hb
+    have hw' : ¬(o.ws = true) := by rw [hw]; simp
+    have h1 : ¬(o.cp = 45 ∧ s.cp = 45) := by omega
+    rw [show (o :: s :: body) ++ v = o :: s :: (body ++ v) from rfl, skip, if_neg hw', if_neg h1, if_pos ⟨ho, hs⟩,
+      skip_block_closes hb]
+    simp only [bytes]
+    congr 1; omega
+
+theorem skip_ws {s : Ch} (h : s.ws = true) (p : Nat) (v : List Ch) :
+    skip .normal p (s :: v) = skip .normal (p + s.len) v := by
+  cases v with
+  | nil => simp only [skip, h, if_true]
+  | cons d r => rw [skip, if_pos h]
+
+
+/-! #### every scanner is translation invariant in the position -/
+
+theorem skip_shift (k : Nat) : ∀ (mode : Mode) (p : Nat) (cs : List Ch),
+    skip mode (k + p) cs = (k + (skip mode p cs).1, (skip mode p cs).2) := by
+  intro mode p cs
+  fun_induction skip mode p cs <;> simp_all [skip, Nat.add_assoc] <;> (split <;> simp_all) 
+
+
+/-- a token moved `k` bytes to the right -/
+def Token.shift (k : Nat) (t : Token) : Token := ⟨t.kind, k + t.lo, k + t.hi⟩
+
+theorem takeW_shift (f : Ch → Bool) (k : Nat) : ∀ (p : Nat) (cs : List Ch),
+    takeW f (k + p) cs = (k + (takeW f p cs).1, (takeW f p cs).2) := by
+  intro p cs
+  induction cs generalizing p with
+  | nil => rfl
+  | cons c r ih =>
+    simp only [takeW]
+    split
+    · rw [Nat.add_assoc, ih]
+    · rfl
+
+theorem scanStr_shift (q k : Nat) : ∀ (acc : List Nat) (p : Nat) (cs : List Ch),
+    scanStr q acc (k + p) cs = ((scanStr q acc p cs).1, k + (scanStr q acc p cs).2.1, (scanStr q acc p cs).2.2) := by
+  intro acc p cs
+  fun_induction scanStr q acc p cs <;> (try simp_all [scanStr, Nat.add_assoc]) <;>
+    (rw [scanStr.eq_def]; simp_all [Nat.add_assoc])
+
+theorem scanFrac_shift (k p : Nat) (cs : List Ch) :
+    scanFrac (k + p) cs = ((scanFrac p cs).1, k + (scanFrac p cs).2.1, (scanFrac p cs).2.2) := by
+  unfold scanFrac
+  split
+  · split
+    · simp only [Nat.add_assoc, takeW_shift]
+    · rfl
+  · rfl
+
+theorem scanSign_shift (k p : Nat) (cs : List Ch) :
+    scanSign (k + p) cs = (k + (scanSign p cs).1, (scanSign p cs).2) := by
+  unfold scanSign
+  split
+  · split
+    · simp only [Nat.add_assoc]
+    · rfl
+  · rfl
+
+theorem scanExp_shift (k p : Nat) (cs : List Ch) :
+    scanExp (k + p) cs = ((scanExp p cs).1, (scanExp p cs).2.1, k + (scanExp p cs).2.2.1, (scanExp p cs).2.2.2) := by
+  unfold scanExp
+  split
+  · split
+    · simp only [Nat.add_assoc, scanSign_shift, takeW_shift]
+    · rfl
+  · rfl
+
+theorem scanNumber_shift (c0 : Ch) (k p : Nat) (r : List Ch) :
+    scanNumber c0 (k + p) r = ((scanNumber c0 p r).1, k + (scanNumber c0 p r).2.1, (scanNumber c0 p r).2.2) := by
+  simp only [scanNumber, takeW_shift, scanFrac_shift, scanExp_shift]
+
+theorem scanToken_shift (k p : Nat) (c : Ch) (r : List Ch) :
+    scanToken (k + p) c r = ((scanToken p c r).1.shift k, k + (scanToken p c r).2.1, (scanToken p c r).2.2) := by
+  unfold scanToken
+  simp only [Nat.add_assoc, takeW_shift, scanNumber_shift, scanStr_shift, Token.shift]
+  split
+  · rfl
+  · split
+    · rfl
+    · split
+      · rfl
+      · split
+        · next v two _ =>
+          cases two with
+          | false => simp
+          | true =>
+            cases r with
+            | nil => simp
+            | cons d r' => simp
+        · rfl
+
+theorem lexN_shift (k : Nat) : ∀ (fuel p : Nat) (cs : List Ch),
+    lexN fuel (k + p) cs = (lexN fuel p cs).map (Token.shift k) := by
+  intro fuel
+  induction fuel with
+  | zero => intro p cs; rfl
+  | succ f ih =>
+    intro p cs
+    simp only [lexN, skip_shift]
+    cases h : (skip .normal p cs) with
+    | mk q rest =>
+      cases rest with
+      | nil => rfl
+      | cons c r =>
+        simp only [scanToken_shift, ih, List.map_cons]
+
+
+/-- more fuel than characters: the amount does not matter -/
+theorem lexN_fuel_indep : ∀ (f f' p : Nat) (cs : List Ch), cs.length < f → cs.length < f' →
+    lexN f p cs = lexN f' p cs := by
+  intro f
+  induction f with
+  | zero => intro f' p cs h; omega
+  | succ f ih =>
+    intro f' p cs h h'
+    cases f' with
+    | zero => omega
+    | succ f'' =>
+      have hs := skip_adv .normal p cs
+      simp only [lexN]
+      split
+      · rfl
+      · next q c r hq =>
+        rw [hq] at hs
+        obtain ⟨_, _, h3, _, _⟩ := scanToken_spec q c r
+        have a := h3.length_le
+        have b := hs.length_le
+        simp only [List.length_cons] at b
+        rw [ih f'' _ _ (by omega) (by omega)]
+
+/-- a comment in front of `v` at a token boundary: the tokens of `v`, moved by the length of the comment -/
+theorem lexN_wellNested {c : List Ch} (h : WellNested c) (fuel p : Nat) (v : List Ch) :
+    lexN (fuel + 1) p (c ++ v) = (lexN (fuel + 1) p v).map (Token.shift (bytes c)) := by
+  rw [← lexN_shift]
+  simp only [lexN, skip_wellNested h, Nat.add_comm (bytes c) p]
+
+theorem lexN_ws {s : Ch} (h : s.ws = true) (fuel p : Nat) (v : List Ch) :
+    lexN (fuel + 1) p (s :: v) = (lexN (fuel + 1) p v).map (Token.shift s.len) := by
+  rw [← lexN_shift]
+  simp only [lexN, skip_ws h, Nat.add_comm s.len p]
+
+theorem lex_wellNested {c : List Ch} (h : WellNested c) (v : List Ch) :
+    lex (c ++ v) = (lex v).map (Token.shift (bytes c)) := by
+  unfold lex
+  rw [lexN_wellNested h, lexN_fuel_indep ((c ++ v).length + 1) (v.length + 1) 0 v (by simp only [List.length_append]; omega) (by omega)]
+
+theorem lex_ws {s : Ch} (h : s.ws = true) (v : List Ch) :
+    lex (s :: v) = (lex v).map (Token.shift s.len) := by
+  unfold lex
+  rw [lexN_ws h, lexN_fuel_indep ((s :: v).length + 1) (v.length + 1) 0 v (by simp only [List.length_cons]; omega) (by omega)]
+
+
+/-! ### what is well nested -/
+
+/-- the scanner's rule as a decision procedure (for the concrete examples) -/
+def closesB : Nat → List Ch → Bool
+  | _, [] => false
+  | _, [_] => false
+  | k, c :: d :: r =>
+    if c.cp = 47 ∧ d.cp = 42 then closesB (k + 1) r
+    else if c.cp = 42 ∧ d.cp = 47 then
+      (match k with
+       | 0 => r.isEmpty
+       | k' + 1 => closesB k' r)
+    else closesB k (d :: r)
+
+theorem closesB_cons2 (k : Nat) (c d : Ch) (r : List Ch) :
+    closesB k (c :: d :: r) =
+      if c.cp = 47 ∧ d.cp = 42 then closesB (k + 1) r
+      else if c.cp = 42 ∧ d.cp = 47 then
+        (match k with
+         | 0 => r.isEmpty
+         | k' + 1 => closesB k' r)
+      else closesB k (d :: r) := by
+  cases k <;> rw [closesB]
+
+theorem closesB_sound : ∀ (k : Nat) (cs : List Ch), closesB k cs = true → Closes k cs := by
+  intro k cs
+  fun_induction closesB k cs with
+  | case1 => intro h; cases h
+  | case2 => intro h; cases h
+  | case3 k c d r h ih => exact fun e => Closes.openInner k c d r h.1 h.2 (ih e)
+  | case4 c d r h1 h2 =>
+    intro e
+    have : r = [] := by cases r <;> simp_all
+    subst this
+    exact Closes.close c d h2.1 h2.2
+  | case5 c d r h1 h2 k' ih => exact fun e => Closes.closeInner k' c d r h2.1 h2.2 (ih e)
+  | case6 k c d r h1 h2 ih => exact fun e => Closes.other k c d r h1 h2 (ih e)
+
+theorem closesB_complete {k : Nat} {cs : List Ch} (h : Closes k cs) : closesB k cs = true := by
+  induction h with
+  | close c d hc hd =>
+    have h1 : ¬(c.cp = 47 ∧ d.cp = 42) := by omega
+    rw [closesB_cons2, if_neg h1, if_pos ⟨hc, hd⟩]; rfl
+  | closeInner k c d r hc hd _ ih =>
+    have h1 : ¬(c.cp = 47 ∧ d.cp = 42) := by omega
+    rw [closesB_cons2, if_neg h1, if_pos ⟨hc, hd⟩]; exact ih
+  | openInner k c d r hc hd _ ih => rw [closesB_cons2, if_pos ⟨hc, hd⟩]; exact ih
+  | other k c d r h1 h2 _ ih => rw [closesB_cons2, if_neg h1, if_neg h2]; exact ih
+
+instance (k : Nat) (cs : List Ch) : Decidable (Closes k cs) :=
+  decidable_of_iff (closesB k cs = true) ⟨closesB_sound k cs, closesB_complete⟩
+
+instance : (c : List Ch) → Decidable (WellNested c)
+  | [] => isFalse (fun h => h)
+  | [_] => isFalse (fun h => h)
+  | o :: s :: body => inferInstanceAs (Decidable (o.cp = 47 ∧ o.ws = false ∧ s.cp = 42 ∧ Closes 0 body))
+
+/-- a `*` that is not followed by `/` is skipped alone -/
+theorem closes_star {k : Nat} {c d : Ch} {r : List Ch} (hc : c.cp = 42) (hd : d.cp ≠ 47) (h : Closes k (d :: r)) :
+    Closes k (c :: d :: r) :=
+  Closes.other k c d r (by omega) (by omega) h
+
+/-- a `/` that is not followed by `*` is skipped alone -/
+theorem closes_slash {k : Nat} {c d : Ch} {r : List Ch} (hc : c.cp = 47) (hd : d.cp ≠ 42) (h : Closes k (d :: r)) :
+    Closes k (c :: d :: r) :=
+  Closes.other k c d r (by omega) (by omega) h
+
+/-- a run of `*` of ANY length directly before a `*` (in particular before a closing `*/`) is skipped -/
+theorem closes_star_run {k : Nat} {x : Ch} {r : List Ch} (hx : x.cp = 42) (h : Closes k (x :: r)) :
+    ∀ (st : List Ch), (∀ c ∈ st, c.cp = 42) → Closes k (st ++ x :: r) := by
+  intro st
+  induction st with
+  | nil => intro _; exact h
+  | cons c st ih =>
+    intro hs
+    have ih' := ih (fun c' hc' => hs c' (List.mem_cons_of_mem _ hc'))
+    have hc := hs c (List.mem_cons_self ..)
+    cases st with
+    | nil => exact closes_star hc (by omega) ih'
+    | cons c2 st2 =>
+      have h2 := hs c2 (List.mem_cons_of_mem _ (List.mem_cons_self ..))
+      exact closes_star hc (by omega) ih'
+
+/-- a run of `/` of ANY length directly before a `/` (in particular before a nested `/*`) is skipped -/
+theorem closes_slash_run {k : Nat} {x : Ch} {r : List Ch} (hx : x.cp = 47) (h : Closes k (x :: r)) :
+    ∀ (sl : List Ch), (∀ c ∈ sl, c.cp = 47) → Closes k (sl ++ x :: r) := by
+  intro sl
+  induction sl with
+  | nil => intro _; exact h
+  | cons c sl ih =>
+    intro hs
+    have ih' := ih (fun c' hc' => hs c' (List.mem_cons_of_mem _ hc'))
+    have hc := hs c (List.mem_cons_self ..)
+    cases sl with
+    | nil => exact closes_slash hc (by omega) ih'
+    | cons c2 sl2 =>
+      have h2 := hs c2 (List.mem_cons_of_mem _ (List.mem_cons_self ..))
+      exact closes_slash hc (by omega) ih'
+
+/-- characters other than `*` and `/` are skipped, whatever follows -/
+theorem closes_plain {k : Nat} {cs : List Ch} (h : Closes k cs) :
+    ∀ (pl : List Ch), (∀ c ∈ pl, c.cp ≠ 42 ∧ c.cp ≠ 47) → Closes k (pl ++ cs) := by
+  intro pl
+  induction pl with
+  | nil => intro _; exact h
+  | cons c pl ih =>
+    intro hs
+    have ih' := ih (fun c' hc' => hs c' (List.mem_cons_of_mem _ hc'))
+    have hc := hs c (List.mem_cons_self ..)
+    obtain ⟨d, r, e⟩ := closes_ne_nil ih'
+    rw [List.cons_append, e]
+    rw [e] at ih'
+    exact Closes.other k c d r (by omega) (by omega) ih'
+
+/-- nesting: the rest of an inner comment followed by the rest of the enclosing one(s) -/
+theorem closes_append {j : Nat} {a : List Ch} (ha : Closes j a) :
+    ∀ {k : Nat} {b : List Ch}, Closes k b → Closes (j + k + 1) (a ++ b) := by
+  induction ha with
+  | close c d hc hd =>
+    intro k b hb
+    rw [Nat.zero_add]
+    exact Closes.closeInner k c d b hc hd hb
+  | closeInner j c d r hc hd _ ih =>
+    intro k b hb
+    have := ih hb
+    rw [show j + 1 + k + 1 = (j + k + 1) + 1 by omega]
+    exact Closes.closeInner _ c d (r ++ b) hc hd this
+  | openInner j c d r hc hd _ ih =>
+    intro k b hb
+    have := ih hb
+    rw [show j + 1 + k + 1 = (j + k + 1) + 1 by omega] at this
+    exact Closes.openInner _ c d (r ++ b) hc hd this
+  | other j c d r h1 h2 _ ih =>
+    intro k b hb
+    exact Closes.other _ c d (r ++ b) h1 h2 (ih hb)
+
+/-- a well-nested comment may stand inside any comment, at any depth -/
+theorem closes_wellNested {c : List Ch} (h : WellNested c) {k : Nat} {b : List Ch} (hb : Closes k b) :
+    Closes k (c ++ b) := by
+  match c, h with
+  | o :: s :: body, ⟨ho, _, hs, hbody⟩ =>
+    have := closes_append hbody hb
+    rw [Nat.zero_add] at this
+    exact Closes.openInner k o s (body ++ b) ho hs this
+
 end Neumann.Parse.Lex
